@@ -7,7 +7,10 @@ use crate::transports::ice::stun::random_u32;
 use anyhow::Result;
 use async_trait::async_trait;
 use bytes::{Bytes, BytesMut};
+#[cfg(not(rustrtc_verif))]
 use parking_lot::{Mutex, RwLock};
+#[cfg(rustrtc_verif)]
+use {crate::verif::sync::Mutex, parking_lot::RwLock};
 use std::cell::RefCell;
 use std::collections::{HashMap, HashSet};
 use std::net::SocketAddr;
